@@ -123,7 +123,7 @@ def run_status_stream(ctx, n):
                     pre.append('cfg+deploy:' + cw.edit_config()); cw.write()
                     sb.cli_json(['deploy', '--apply', '--yes', '--adopt'])
             tags = pre + perturb(rng, cw, sb)
-            flt = rng.choice([None, None, 'codex'] + (['claude_code'] if cw.claude else []) + (['zed'] if cw.zed else []))
+            flt = rng.choice([None, None, 'codex'] + (['claude_code'] if cw.claude else []) + (['zed'] if cw.zed else []) + (['vscode'] if getattr(cw, 'vscode', False) else []))
             only = rng.choice([None, None, ['extra'], ['modified', 'missing'], ['missing']])
             args = ['status'] + (['--target', flt] if flt else []) + (['--only', ','.join(only)] if only else [])
             rc, doc, out, err = sb.cli_json(args)
